@@ -8,59 +8,68 @@ import sys
 import tempfile
 
 HERE = os.path.dirname(os.path.abspath(__file__))
+sys.path.insert(0, HERE)
+import common
 VERIF = os.path.dirname(HERE)
 REPO = "/repo"
 ALL = ["C%02d" % i for i in range(1, 21)]
 
 
+def one(args):
+    d, name, allp = args
+    pd = os.path.join(d, name, "patch.diff")
+    lines = []
+    base, dst = common.make_copy("casslint-seed-")
+    p = subprocess.run(["patch", "-p1", "-s", "-i", pd], cwd=dst, capture_output=True, text=True)
+    if p.returncode != 0:
+        shutil.rmtree(base, ignore_errors=True)
+        return name, None, ["%-10s PATCH DOES NOT APPLY: %s" % (name, (p.stdout + p.stderr)[:200])]
+    target = name[:3]
+    props = ALL if allp else [target]
+    res = common.run_props(dst, props)
+    fired = []
+    result = {}
+    for prop in props:
+        rc, text = res[prop]
+        fails = [l.strip() for l in text.splitlines() if l.strip().startswith("FAIL")]
+        if rc != 0:
+            fired.append((prop, fails))
+            keys = []
+            for f in fails:
+                if "[" in f and f.endswith("]"):
+                    k = f[f.rindex("[") + 1:-1]
+                    if not k.endswith("|floor"):
+                        keys.append(k)
+            result[prop] = keys[:8] or ["(fail-closed: see the check output)"]
+    if fired:
+        lines.append("%-10s CAUGHT by %s" % (name, ", ".join(p for p, _ in fired)))
+        for p, fails in fired:
+            for f in fails[:3]:
+                lines.append("             %s: %s" % (p, f[:230]))
+    else:
+        lines.append("%-10s MISSED (checked %s)" % (name, ",".join(props)))
+    shutil.rmtree(base, ignore_errors=True)
+    return name, result, lines
+
+
 def main():
     import json
-    d = sys.argv[1]
+    from concurrent.futures import ThreadPoolExecutor
+    d = os.path.abspath(sys.argv[1])
     results = {}
     only = None
     allp = "--all" in sys.argv
     for a in sys.argv[2:]:
         if a.startswith("--only="):
             only = a.split("=")[1].split(",")
-    for name in sorted(os.listdir(d)):
-        pd = os.path.join(d, name, "patch.diff")
-        if not os.path.isfile(pd) or (only and name not in only):
-            continue
-        base = tempfile.mkdtemp(prefix="casslint-seed-")
-        dst = os.path.join(base, "repo")
-        os.makedirs(dst)
-        shutil.copytree(os.path.join(REPO, "src"), os.path.join(dst, "src"))
-        for f in ("Cargo.toml", "Cargo.lock"):
-            shutil.copy(os.path.join(REPO, f), os.path.join(dst, f))
-        p = subprocess.run(["patch", "-p1", "-s", "-i", pd], cwd=dst, capture_output=True, text=True)
-        if p.returncode != 0:
-            print("%-10s PATCH DOES NOT APPLY: %s" % (name, (p.stdout + p.stderr)[:200]))
-            shutil.rmtree(base, ignore_errors=True)
-            continue
-        target = name[:3]
-        props = ALL if allp else [target]
-        fired = []
-        for prop in props:
-            q = subprocess.run([os.path.join(VERIF, "check"), prop, "--root", dst], capture_output=True, text=True)
-            fails = [l.strip() for l in q.stdout.splitlines() if l.strip().startswith("FAIL")]
-            if q.returncode != 0:
-                fired.append((prop, fails))
-                keys = []
-                for f in fails:
-                    if "[" in f and f.endswith("]"):
-                        k = f[f.rindex("[") + 1:-1]
-                        if not k.endswith("|floor"):
-                            keys.append(k)
-                results.setdefault(name, {})[prop] = keys[:8] or ["(fail-closed: see the check output)"]
-        if fired:
-            print("%-10s CAUGHT by %s" % (name, ", ".join(p for p, _ in fired)))
-            for p, fails in fired:
-                for f in fails[:3]:
-                    print("             %s: %s" % (p, f[:230]))
-        else:
-            print("%-10s MISSED (checked %s)" % (name, ",".join(props)))
-        results.setdefault(name, {})
-        shutil.rmtree(base, ignore_errors=True)
+    names = [n for n in sorted(os.listdir(d)) if os.path.isfile(os.path.join(d, n, "patch.diff")) and (not only or n in only)]
+    with ThreadPoolExecutor(max_workers=common.JOBS) as ex:
+        for name, result, lines in ex.map(one, [(d, n, allp) for n in names]):
+            for l in lines:
+                print(l)
+            sys.stdout.flush()
+            if result is not None:
+                results[name] = result
     if "--write" in sys.argv:
         out = os.path.join(d, "RESULTS.json")
         old = {}
